@@ -627,7 +627,11 @@ func c15Check(c c15Case, st *stats.Run) error {
 		// nothing but the output may change
 		outRel := filepath.Clean(outPath)
 		if filepath.IsAbs(outRel) {
-			outRel, _ = filepath.Rel(dir, outRel)
+			base := dir
+			if strings.HasPrefix(outRel, runDir+string(filepath.Separator)) {
+				base = runDir // the case directory as the command saw it (through a symbolic link)
+			}
+			outRel, _ = filepath.Rel(base, outRel)
 		}
 		ign := []string{outRel}
 		if c.Symlink && sameTarget != "" {
